@@ -26,6 +26,7 @@ ASSUMPTIONS = ["triangles are generated with counter-clockwise corners (document
                "eps = 2e-3 L; unit length within 1e-4"]
 CASE_TIMEOUT = 150
 TOL = 2e-5
+SCALES = [0.01, 0.05, 30.0, 300.0]
 
 
 def fix_triangles(s):
@@ -69,6 +70,11 @@ def gen_cases(seed, tier):
                                  k=int(rng.choice([0, 0, 1, 2, 3, 5])))
         spec = copy.deepcopy(dom["spec"])
         fix_triangles(spec)
+        if len(cases) % 5 == 2 and "polyhedron" not in geo.spec_ops(spec):
+            # the same shapes at other length scales (small and large domains: relative, not absolute, tolerances)
+            S = float(rng.choice(SCALES))
+            spec = geo.scale_spec(spec, S)
+            dom["info"] = dict(dom["info"], scale=S)
         cases.append({"spec": spec, "rows": dom["rows"], "info": dom["info"], "k": dom["k"],
                       "seed": int(rng.integers(0, 2 ** 31))})
     return cases
@@ -113,7 +119,7 @@ def run_case(case):
     kk = max(k, 1)
     shape = "".join(c for c in info["desc"] if not c.isdigit())
     res["cls"] = "%s|%s|%s" % (shape, _kcls(k), "dep" if info["dep"] else "const")
-    mech0 = {"root": info["kind"], "dep": bool(info["dep"]), "k": _kcls(k), "bcls": None}
+    mech0 = {"root": info["kind"], "dep": bool(info["dep"]), "k": _kcls(k), "bcls": None, "scale": info.get("scale", 1.0)}
     names_dims = node.space()
     try:
         Db = D.boundary
@@ -172,6 +178,28 @@ def run_case(case):
             i = int(np.where(badlen)[0][0])
             res["viol"].append(viol("normal_not_unit", "%s.normal: %d normals with |n| != 1 (e.g. %.5f at x=%s) on %s" %
                                     (type(Db).__name__, int(badlen.sum()), ln[i], X[i].tolist(), info["desc"]), **mech))
+        # the normal must not depend on how the columns of the query are stored: another variable (of a product sampler)
+        # or the parameters stored in front of / behind the domain coordinates
+        from torchphysics.problem.spaces import Points as _P
+        extra = _P.from_coordinates({"q0": torch.tensor(rng.uniform(-1, 1, (len(X), 1)).astype(np.float32))})
+        layouts = [("extra_front", extra.join(pts), par), ("extra_behind", pts.join(extra), par)]
+        if len(par.space.keys() if hasattr(par.space, "keys") else []) > 0:
+            layouts += [("params_front", par.join(pts), _P.empty()), ("params_behind", pts.join(par), _P.empty())]
+        for lname, lp, lq in layouts:
+            try:
+                other = Db.normal(lp, lq).detach().double().numpy()
+            except Exception as e:
+                res["viol"].append(viol("exception", "%s.normal with the query stored as %s (%s) raised %s in %s: %s" % (type(Db).__name__, lname,
+                                        list(lp.space.keys()), type(e).__name__, exc_site(e), str(e)[:200]), exc=type(e).__name__, site=exc_site(e),
+                                        layout=lname, **mech))
+                continue
+            res["counters"]["layout_queries"] = res["counters"].get("layout_queries", 0) + 1
+            okr = np.isfinite(Nn).all(1)
+            if other.shape != Nn.shape or (np.abs(other - Nn)[okr] > 1e-4).any():
+                nb_ = int((np.abs(other - Nn)[okr] > 1e-4).any(1).sum()) if other.shape == Nn.shape else len(X)
+                res["viol"].append(viol("normal_depends_on_layout", "%s.normal on %s: %d of %d normals change when the query points are stored as %s "
+                                        "(space %s)" % (type(Db).__name__, info["desc"], nb_, len(X), lname, list(lp.space.keys())),
+                                        layout=lname, **mech))
         # the normal of a row must not depend on the rest of the batch: single rows and small sub-batches
         diffs = 0
         for sel in [np.array([int(j)]) for j in rng.integers(0, len(X), 12)] + [rng.choice(len(X), size=min(3, len(X)), replace=False) for _ in range(3)]:
